@@ -46,6 +46,25 @@ def decorate(spec):
                 t["fixF"] = []
         if t.get("due") is None and rq.random() < 0.25:
             t["due"] = rq.randint(0, 12)
+    # a non-automatic task may carry a work_amount_progress_of_unit_step_time other than 1 (it only means something
+    # for automatic tasks); two facilities of one workplace may share a name
+    for t in tasks:
+        if not t.get("auto") and rq.random() < 0.12:
+            t["auto_rate"] = rq.choice([0.5, 2.0, 0.0])
+    for q in spec.get("workplaces", []):
+        fs = q["facilities"]
+        if len(fs) > 1 and rq.random() < 0.25:
+            a, b = rq.sample(range(len(fs)), 2)
+            fs[a]["name"] = fs[b]["name"]
+    # components wired through the constructor (BaseComponent(targeted_task_list=[...])): the tasks' own
+    # target_component stays None.  Only where that is a legal model: the simulator dereferences
+    # task.target_component for facility tasks and automatic tasks of components
+    in_comp = {k for cs in spec.get("components", []) for k in cs["tasks"]}
+    if in_comp and not any(tasks[k].get("need_fac") or tasks[k].get("auto") for k in in_comp if k < len(tasks)) and rq.random() < 0.5:
+        spec["comp_wiring"] = "ctor"
+    # workplace links declared on the input side only (BaseWorkplace(input_workplace_list=[...]))
+    if rq.random() < 0.15:
+        spec["wp_wiring"] = "ctor"
     # per-resource absence lists need not be ascending
     for tm in spec.get("teams", []):
         for w in tm["workers"]:
@@ -425,6 +444,10 @@ def gen_params(rng, spec):
         # and the observed run may keep the state and/or the logs of the earlier one
         if rng.random() < 0.4:
             p["initState"], p["initLog"] = rng.choice([(True, False), (False, True), (False, False)])
+            if p["initState"] is False and not p["warmup"]["backward"] and rng.random() < 0.7:
+                # a continued run given a calendar with steps that lie behind the clock and steps still to come
+                k = p["warmup"]["maxTime"] if p["warmup"]["maxTime"] < 40 else 3
+                p["absence"] = sorted(set([max(k - 2, 0), k + 1, rng.choice([0, 1, k, k + 2, k + 3])]))
     elif rng.random() < 0.05:
         # the very first run of a freshly built model with an initialisation flag off (the constructors'
         # defaults are then what the run starts from)
